@@ -1082,7 +1082,15 @@ class Variable(CanBehaveLikeAVariable[T]):
         values = {self._id_: hv}
         for d in kwargs.values():
             values.update(d.bindings)
-        return OperationResult(values, not bool(instance), self)
+        # The truth of the result only matters where this call stands as a condition. As an operand (of a comparator,
+        # of another call, ...) a falsy result such as 0 or False is a value like any other.
+        is_false = False
+        if (
+            isinstance(self._parent_, LogicalOperator)
+            or self is self._conditions_root_
+        ):
+            is_false = not bool(instance)
+        return OperationResult(values, is_false, self)
 
     @property
     def _name_(self):
